@@ -20,15 +20,56 @@ auto check(const LEorLT& lelt, tscalar value1, tscalar value2)
     return std::holds_alternative<LE_t>(lelt) ? (value1 <= value2) : (value1 < value2);
 }
 
-auto split_pair(const string_t& value)
+auto split_pair(const string_t& name, const string_t& value)
 {
     string_t value1;
     string_t value2;
-    for (auto tokenizer = tokenizer_t{value, ";,:|/ "}; tokenizer; ++tokenizer)
+    auto     tokens = 0;
+    for (auto tokenizer = tokenizer_t{value, ";,:|/ "}; tokenizer; ++tokenizer, ++tokens)
     {
-        (value1.empty() ? value1 : value2) = tokenizer.get();
+        (tokens == 0 ? value1 : value2) = tokenizer.get();
+    }
+    if (tokens != 2)
+    {
+        // NB: same exception type as the standard library conversions below
+        throw std::invalid_argument(scat("parameter (", name, "): expecting a pair of values, got '", value, "'!"));
     }
     return std::make_tuple(value1, value2);
+}
+
+template <class tscalar>
+auto from_string(const string_t& name, const string_t& value)
+{
+    // NB: the whole string must be a number, not just a prefix of it!
+    auto pos    = size_t{0U};
+    auto result = tscalar{};
+    if constexpr (std::is_integral_v<tscalar>)
+    {
+        result = std::stoll(value, &pos);
+    }
+    else
+    {
+        result = std::stod(value, &pos);
+    }
+    if (pos != value.size())
+    {
+        throw std::invalid_argument(scat("parameter (", name, "): cannot set value ('", value, "'), not a number!"));
+    }
+    return result;
+}
+
+template <class tscalar, class tvalue>
+bool convertible([[maybe_unused]] const tvalue value)
+{
+    if constexpr (std::is_integral_v<tscalar> && std::is_floating_point_v<tvalue>)
+    {
+        // NB: converting a not finite or too large value to an integer is undefined behaviour!
+        return std::isfinite(value) && value >= static_cast<tvalue>(-0x1p63) && value < static_cast<tvalue>(0x1p63);
+    }
+    else
+    {
+        return true;
+    }
 }
 
 auto& update(const string_t& name, parameter_t::enum_t& param, string_t value)
@@ -43,9 +84,10 @@ auto& update(const string_t& name, parameter_t::enum_t& param, string_t value)
 template <class tscalar, class tvalue>
 auto& update(const string_t& name, parameter_t::range_t<tscalar>& param, tvalue value_)
 {
-    const auto value = static_cast<tscalar>(value_);
+    const auto valid = ::convertible<tscalar>(value_);
+    const auto value = valid ? static_cast<tscalar>(value_) : tscalar{};
 
-    critical(!::nano::isfinite(value) || !::check(param.m_mincomp, param.m_min, value) ||
+    critical(!valid || !::nano::isfinite(value) || !::check(param.m_mincomp, param.m_min, value) ||
                  !::check(param.m_maxcomp, value, param.m_max),
              "parameter (", name, "): out of domain scalar value, !(", param.m_min, ::name(param.m_mincomp), value_,
              ::name(param.m_maxcomp), param.m_max, ")");
@@ -57,10 +99,11 @@ auto& update(const string_t& name, parameter_t::range_t<tscalar>& param, tvalue 
 template <class tscalar, class tvalue1, class tvalue2>
 auto& update(const string_t& name, parameter_t::pair_range_t<tscalar>& param, tvalue1 value1_, tvalue2 value2_)
 {
-    const auto value1 = static_cast<tscalar>(value1_);
-    const auto value2 = static_cast<tscalar>(value2_);
+    const auto valid  = ::convertible<tscalar>(value1_) && ::convertible<tscalar>(value2_);
+    const auto value1 = valid ? static_cast<tscalar>(value1_) : tscalar{};
+    const auto value2 = valid ? static_cast<tscalar>(value2_) : tscalar{};
 
-    critical(!::nano::isfinite(value1) || !::nano::isfinite(value2) || !::check(param.m_mincomp, param.m_min, value1) ||
+    critical(!valid || !::nano::isfinite(value1) || !::nano::isfinite(value2) || !::check(param.m_mincomp, param.m_min, value1) ||
                  !::check(param.m_valcomp, value1, value2) || !::check(param.m_maxcomp, value2, param.m_max),
              "parameter (", name, "): out of domain pair of scalar values, !(", param.m_min, ::name(param.m_mincomp),
              value1_, ::name(param.m_valcomp), value2_, ::name(param.m_maxcomp), param.m_max, ")");
@@ -301,17 +344,19 @@ parameter_t& parameter_t::operator=(string_t value)
 {
     std::visit(overloaded{[&](enum_t& param) { ::update(m_name, param, std::move(value)); },
                           [&](string_t& param) { param = std::move(value); },
-                          [&](irange_t& param) { ::update(m_name, param, std::stoll(value)); },
-                          [&](frange_t& param) { ::update(m_name, param, std::stod(value)); },
+                          [&](irange_t& param) { ::update(m_name, param, ::from_string<int64_t>(m_name, value)); },
+                          [&](frange_t& param) { ::update(m_name, param, ::from_string<scalar_t>(m_name, value)); },
                           [&](iprange_t& param)
                           {
-                              const auto [value1, value2] = ::split_pair(value);
-                              ::update(m_name, param, std::stoll(value1), std::stoll(value2));
+                              const auto [value1, value2] = ::split_pair(m_name, value);
+                              ::update(m_name, param, ::from_string<int64_t>(m_name, value1),
+                                       ::from_string<int64_t>(m_name, value2));
                           },
                           [&](fprange_t& param)
                           {
-                              const auto [value1, value2] = ::split_pair(value);
-                              ::update(m_name, param, std::stod(value1), std::stod(value2));
+                              const auto [value1, value2] = ::split_pair(m_name, value);
+                              ::update(m_name, param, ::from_string<scalar_t>(m_name, value1),
+                                       ::from_string<scalar_t>(m_name, value2));
                           },
                           [&](auto&) { critical0("parameter (", m_name, "): cannot set value (", value, ")!"); }},
                m_storage);
